@@ -144,12 +144,13 @@ func (r *SchemaURL) fromMap(v map[string]interface{}) error {
 	}
 	if vv, ok := v["$schema"]; ok {
 		if str, ok := vv.(string); ok {
-			u, err := parseURL(str)
-			if err != nil {
+			if _, err := parseURL(str); err != nil {
 				return err
 			}
 
-			*r = SchemaURL(u.String())
+			// keep the text as written: printing the parsed URL would drop an empty fragment,
+			// e.g. the trailing "#" of "http://json-schema.org/draft-04/schema#"
+			*r = SchemaURL(str)
 		}
 	}
 	return nil
